@@ -37,6 +37,7 @@ import (
 	"gitlab.com/aquachain/aquachain/aqua/accounts/keystore"
 	"gitlab.com/aquachain/aquachain/common"
 	"gitlab.com/aquachain/aquachain/common/log"
+	"gitlab.com/aquachain/aquachain/p2p/netutil"
 	"gitlab.com/aquachain/aquachain/rpc"
 	rpcclient "gitlab.com/aquachain/aquachain/rpc/rpcclient"
 	"gitlab.com/aquachain/aquachain/verifharness/cmd/c18/c18node"
@@ -59,6 +60,9 @@ type Scenario struct {
 	WSExposeAll bool              `json:"ws_expose_all"`
 	Clique      bool              `json:"clique"`
 	ListOnly    bool              `json:"list_only"`      // compare the served registries only, make no calls
+	NoKeys      bool              `json:"no_keys"`        // node.Config.NoKeys (no keystore at all)
+	Runtime     bool              `json:"runtime"`        // HTTP and WS are not configured; they are started through admin_startRPC / admin_startWS over IPC with HTTPModules / WSModules as the apis argument
+	RuntimeNil  bool              `json:"runtime_nil"`    // with Runtime: pass apis = null (HTTP then uses Node.httpWhitelist = nil, WS uses Config.WSModules)
 	Only        *OnlyCall         `json:"only,omitempty"` // replay: a single call
 }
 
@@ -217,6 +221,9 @@ func genArg(t reflect.Type, m rpc.VerifMethod, v variant) interface{} {
 		if ptr {
 			return 1
 		}
+		if strings.Contains(m.GoName, "GCPercent") {
+			return 100 // the default; 0 would make the child collect garbage continuously
+		}
 		return 0
 	}
 	if ptr {
@@ -229,6 +236,7 @@ var neverCall = map[string]string{
 	"admin_shutdown": "would stop the node under test",
 	"admin_stopRPC":  "would close the HTTP endpoint under test",
 	"admin_stopWS":   "would close the WS endpoint under test",
+	"clique_propose": "with the sealer's own address and auth=false it votes the only signer out; the next block then divides by zero in clique.Snapshot.inturn and crashes the process (unrelated to C18)",
 	// internal/debug's glog handler is only created by debug.Setup (the aquachain command); in an embedded
 	// node these three dereference a nil handler and crash the process (unrelated to C18)
 	"debug_verbosity":   "nil glog handler outside the aquachain command (process crash)",
@@ -285,7 +293,7 @@ func childMain(specPath string) {
 	}
 	dir := filepath.Dir(specPath)
 	env, err := c18node.Start(c18node.Options{Dir: filepath.Join(dir, "data"), NoDefaults: sc.NoDefaults, HTTPModules: sc.HTTPModules,
-		WSModules: sc.WSModules, WSExposeAll: sc.WSExposeAll, Transports: true, Clique: sc.Clique})
+		WSModules: sc.WSModules, WSExposeAll: sc.WSExposeAll, Transports: true, Clique: sc.Clique, NoKeys: sc.NoKeys, OnlyIPC: sc.Runtime})
 	if err != nil {
 		out.Error = "start: " + err.Error()
 		emit()
@@ -295,11 +303,44 @@ func childMain(specPath string) {
 	out.Unlocked, out.Locked = env.Unlocked.Hex(), env.Locked.Hex()
 	out.Transports = map[string]*TransportOut{}
 
+	if sc.Runtime {
+		// start HTTP and WS at run time, the way an operator would from the console / over IPC
+		cl, err := rpcclient.Dial(env.IPC)
+		if err != nil {
+			out.Error = "runtime dial ipc: " + err.Error()
+			emit()
+			os.Exit(1)
+		}
+		var hApis, wApis interface{}
+		if !sc.RuntimeNil {
+			hApis, wApis = strings.Join(sc.HTTPModules, ","), strings.Join(sc.WSModules, ",")
+		}
+		var nl netutil.Netlist
+		nl.Add("127.0.0.1/32")
+		var ok bool
+		if err := cl.Call(&ok, "admin_startRPC", "127.0.0.1", env.HTTPPort, nil, hApis, nil); err != nil || !ok {
+			out.Error = fmt.Sprintf("admin_startRPC: ok=%v err=%v", ok, err)
+			emit()
+			os.Exit(1)
+		}
+		if err := cl.Call(&ok, "admin_startWS", "127.0.0.1", env.WSPort, "*", nl, wApis); err != nil || !ok {
+			out.Error = fmt.Sprintf("admin_startWS: ok=%v err=%v", ok, err)
+			emit()
+			os.Exit(1)
+		}
+		cl.Close()
+	}
+
 	var ks *keystore.KeyStore
-	if bk := env.Stack.AccountManager().Backends(keystore.KeyStoreType); len(bk) > 0 {
-		ks = bk[0].(*keystore.KeyStore)
+	if am := env.Stack.AccountManager(); am != nil {
+		if bk := am.Backends(keystore.KeyStoreType); len(bk) > 0 {
+			ks = bk[0].(*keystore.KeyStore)
+		}
 	}
 	restore := func() {
+		if ks == nil {
+			return
+		}
 		ks.Lock(env.Locked)
 		ks.Unlock(accounts.Account{Address: env.Unlocked}, c18node.PassUnlocked)
 	}
@@ -334,7 +375,11 @@ func childMain(specPath string) {
 		}
 		to.Up = true
 		svc := map[string]bool{}
+		servedHere := map[string]bool{}
 		for _, m := range h.VerifListMethods() {
+			if !m.Subscription {
+				servedHere[m.Namespace+"_"+m.Name] = true
+			}
 			sub := "0"
 			if m.Subscription {
 				sub = "1"
@@ -394,6 +439,19 @@ func childMain(specPath string) {
 				env.Aqua.StopMining()
 				time.Sleep(20 * time.Millisecond)
 			}
+			if wait > 0 && r != "notfound" && r != "invalid" {
+				// let a seal that is already under way finish, so that it cannot be attributed to the next call
+				last, since := keystore.VerifSignCount(), time.Now()
+				for time.Since(since) < 1100*time.Millisecond {
+					time.Sleep(50 * time.Millisecond)
+					if env.Aqua.IsMining() {
+						env.Aqua.StopMining()
+					}
+					if n := keystore.VerifSignCount(); n != last {
+						last, since = n, time.Now()
+					}
+				}
+			}
 			if strings.Contains(name, "ockAccount") {
 				restore()
 			}
@@ -402,7 +460,7 @@ func childMain(specPath string) {
 			if sc.Only.Transport == tr {
 				w := time.Duration(0)
 				if sc.Clique {
-					w = 3 * time.Second
+					w = 8 * time.Second
 				}
 				doCall(sc.Only.Method, "replay", sc.Only.Params, w)
 			}
@@ -418,11 +476,12 @@ func childMain(specPath string) {
 				to.Skipped = append(to.Skipped, name+": "+why)
 				continue
 			}
-			if sc.Clique && name != "miner_start" && name != "aqua_getWork" && name != "testing_getBlockTemplate" {
+			startsMiner := name == "miner_start" || name == "aqua_getWork" || name == "testing_getBlockTemplate"
+			if sc.Clique && !startsMiner && !strings.HasPrefix(name, "clique_") {
 				continue
 			}
 			var vs []variant
-			if sc.Clique {
+			if sc.Clique && startsMiner {
 				vs = []variant{{"unlocked/right-pass", env.Unlocked, env.Locked, c18node.PassUnlocked}}
 			} else if usesAccount(m) {
 				for _, acc := range []struct {
@@ -435,6 +494,12 @@ func childMain(specPath string) {
 			} else {
 				vs = []variant{{"plain", env.Unlocked, env.Locked, ""}}
 			}
+			if strings.HasSuffix(m.Recv.String(), "debug.HandlerT") && len(vs) > 1 {
+				vs = vs[:1] // process profiling / tracing knobs (file name arguments): once is enough
+			}
+			if !servedHere[name] && len(vs) > 1 {
+				vs = vs[:1] // not registered on this transport: one call is enough to see method-not-found
+			}
 			for _, v := range vs {
 				var params []json.RawMessage
 				for _, t := range m.ArgTypes {
@@ -445,8 +510,8 @@ func childMain(specPath string) {
 					params = append(params, pb)
 				}
 				w := time.Duration(0)
-				if sc.Clique {
-					w = 3 * time.Second
+				if sc.Clique && startsMiner {
+					w = 8 * time.Second
 				}
 				doCall(name, v.label, params, w)
 			}
@@ -482,7 +547,7 @@ func runChild(c *vh.Ctx, sc Scenario, idx int) (*ChildOut, error) {
 	var envv []string
 	for _, kv := range os.Environ() {
 		k := strings.SplitN(kv, "=", 2)[0]
-		if strings.HasPrefix(k, "UNSAFE_") || k == "HOME" || k == "AQUA_DATADIR" || k == "NO_SIGN" || k == "NOSIGN" || k == "NO_KEYS" || k == "AQUA_KEYSTORE_DIR" || k == "TESTING_TEST" {
+		if strings.HasPrefix(k, "UNSAFE_") || k == "HOME" || k == "AQUA_DATADIR" || k == "NO_SIGN" || k == "NOSIGN" || k == "NO_KEYS" || k == "AQUA_KEYSTORE_DIR" || k == "TESTING_TEST" || k == "AQUA_ALLOW_RPC" {
 			continue
 		}
 		envv = append(envv, kv)
@@ -537,6 +602,25 @@ func modsArg(noDefaults bool, l []string) string {
 	return strings.Join(l, ",")
 }
 
+// the whitelists the start functions end up with, as model arguments
+func modelMods(sc Scenario) (string, string) {
+	if sc.Runtime && sc.RuntimeNil {
+		// admin_startRPC: modules := api.node.httpWhitelist (never assigned: nil); admin_startWS: modules := config.WSModules
+		return "-", modsArg(sc.NoDefaults, sc.WSModules)
+	}
+	if sc.Runtime {
+		return modsArg(true, sc.HTTPModules), modsArg(true, sc.WSModules)
+	}
+	return modsArg(sc.NoDefaults, sc.HTTPModules), modsArg(sc.NoDefaults, sc.WSModules)
+}
+
+func chainOf(sc Scenario) string {
+	if sc.Clique {
+		return "clique"
+	}
+	return "aquahash"
+}
+
 func bit(b bool) string {
 	if b {
 		return "1"
@@ -581,7 +665,8 @@ func evaluate(c *vh.Ctx, m *vh.Model, sc Scenario, out *ChildOut) {
 			c.Fatal("transport %s not started in scenario %s", tr, sc.Name)
 		}
 		optedIn := flags[flagIndex[tr]] == '1'
-		req := fmt.Sprintf("exposed %s %s %s %s %s", flags, tr, modsArg(sc.NoDefaults, sc.HTTPModules), modsArg(sc.NoDefaults, sc.WSModules), bit(sc.WSExposeAll))
+		hm, wm := modelMods(sc)
+		req := fmt.Sprintf("exposed %s %s %s %s %s %s", chainOf(sc), flags, tr, hm, wm, bit(sc.WSExposeAll))
 		ans := m.Ask(req)
 		// model answer: "ok modules=.. methods=ns_wire|recv|sub|signs,..": split off the signs bits
 		signs := map[string]string{}
@@ -611,21 +696,6 @@ func evaluate(c *vh.Ctx, m *vh.Model, sc Scenario, out *ChildOut) {
 		}
 		if sc.Only == nil {
 			reg, mods := to.Registry, to.Modules
-			if sc.Clique {
-				// the clique engine contributes its own "clique" namespace (engine.APIs), which the generated
-				// list (taken from a node on the default aquahash engine) does not contain: left out of the comparison
-				reg, mods = nil, nil
-				for _, e := range to.Registry {
-					if !strings.HasPrefix(e, "clique_") {
-						reg = append(reg, e)
-					}
-				}
-				for _, e := range to.Modules {
-					if e != "clique" {
-						mods = append(mods, e)
-					}
-				}
-			}
 			obs := "ok modules=" + strings.Join(mods, ",") + " methods=" + strings.Join(reg, ",")
 			c.Correspond("node.start*/rpc.RegisterName~gen_exposed", sc.Name+" ["+envDesc(sc)+"] "+req, obs, modelCanon)
 		}
@@ -666,7 +736,7 @@ func evaluate(c *vh.Ctx, m *vh.Model, sc Scenario, out *ChildOut) {
 				produced = "the call succeeded: a signature with the keystore key was produced"
 			}
 			c.Violate("rpc-unprotected-signer/"+call.M,
-				fmt.Sprintf("%s over %s entered a keystore signing entry point %d time(s) although %s is not set (%s; modules http=%s ws=%s; chain=%s); %s", call.M, tr, call.D, envVars[flagIndex[tr]], envDesc(sc), modsArg(sc.NoDefaults, sc.HTTPModules), modsArg(sc.NoDefaults, sc.WSModules), map[bool]string{true: "clique", false: "aquahash"}[sc.Clique], produced),
+				fmt.Sprintf("%s over %s entered a keystore signing entry point %d time(s) although %s is not set (%s; modules http=%s ws=%s; chain=%s); %s", call.M, tr, call.D, envVars[flagIndex[tr]], envDesc(sc), hm, wm, chainOf(sc), produced),
 				map[string]interface{}{"scenario": sc, "transport": tr, "method": call.M, "variant": call.V, "params": call.P, "result": call.R, "error": call.E, "sign_counter_delta": call.D})
 		}
 	}
@@ -674,9 +744,20 @@ func evaluate(c *vh.Ctx, m *vh.Model, sc Scenario, out *ChildOut) {
 
 func scenarios(c *vh.Ctx) []Scenario {
 	wide := []string{"personal", "aqua", "miner", "testing", "admin", "net", "web3"}
+	none := map[string]string{}
+	rt := func(extra map[string]string) map[string]string {
+		m := map[string]string{"AQUA_ALLOW_RPC": "true"}
+		for k, v := range extra {
+			m[k] = v
+		}
+		return m
+	}
 	var l []Scenario
-	l = append(l, Scenario{Name: "default-env/default-config", Env: map[string]string{}})
-	l = append(l, Scenario{Name: "default-env/wide-modules", Env: map[string]string{}, NoDefaults: true, HTTPModules: wide, WSModules: wide})
+	// the clique scenario first: it is the slowest child (it waits for block sealing)
+	l = append(l, Scenario{Name: "clique/default-env/default-config", Env: none, Clique: true})
+	l = append(l, Scenario{Name: "default-env/default-config", Env: none})
+	// HTTP and WS started at run time over IPC with a wide whitelist: do they honour the flags?
+	l = append(l, Scenario{Name: "runtime-start/default-env/wide-modules", Env: rt(nil), Runtime: true, NoDefaults: true, HTTPModules: wide, WSModules: wide})
 	truthy := []string{"1", "true", "yes", "on", "ENABLED", "banana", "2"}
 	falsy := []string{"0", "false", "no", "off", "", "Disabled"}
 	if !c.Thorough() {
@@ -688,13 +769,21 @@ func scenarios(c *vh.Ctx) []Scenario {
 			env[envVars[k2]] = falsy[c.Rng.Intn(len(falsy))]
 		}
 		l = append(l, Scenario{Name: "one-opt-in/wide-modules", Env: env, NoDefaults: true, HTTPModules: wide, WSModules: wide})
-		l = append(l, Scenario{Name: "clique/default-env/default-config", Env: map[string]string{}, Clique: true})
-		// every single opt-in (registry comparison only): catches a flag wired to the wrong transport
+		// every single opt-in (registry comparison only): catches a flag wired to the wrong transport,
+		// at start-up and for servers started at run time
 		for i := 0; i < 5; i++ {
-			l = append(l, Scenario{Name: "single-opt-in-" + envVars[i] + "/wide-modules/list-only", Env: map[string]string{envVars[i]: truthy[c.Rng.Intn(len(truthy))]}, NoDefaults: true, HTTPModules: wide, WSModules: wide, ListOnly: true})
+			e := map[string]string{envVars[i]: truthy[c.Rng.Intn(len(truthy))]}
+			l = append(l, Scenario{Name: "single-opt-in-" + envVars[i] + "/wide-modules/list-only", Env: e, NoDefaults: true, HTTPModules: wide, WSModules: wide, ListOnly: true})
+			l = append(l, Scenario{Name: "runtime-start/single-opt-in-" + envVars[i] + "/wide-modules/list-only", Env: rt(e), Runtime: true, NoDefaults: true, HTTPModules: wide, WSModules: wide, ListOnly: true})
 		}
+		l = append(l, Scenario{Name: "runtime-start/apis-null/list-only", Env: rt(nil), Runtime: true, RuntimeNil: true, ListOnly: true})
+		l = append(l, Scenario{Name: "default-env/wide-modules/list-only", Env: none, NoDefaults: true, HTTPModules: wide, WSModules: wide, ListOnly: true})
+		l = append(l, Scenario{Name: "no-keys/wide-modules/list-only", Env: none, NoKeys: true, NoDefaults: true, HTTPModules: wide, WSModules: wide, ListOnly: true})
+		l = append(l, Scenario{Name: "NO_SIGN/wide-modules/list-only", Env: map[string]string{"NO_SIGN": "1"}, NoDefaults: true, HTTPModules: wide, WSModules: wide, ListOnly: true})
+		l = append(l, Scenario{Name: "clique/wide-modules/list-only", Env: none, Clique: true, NoDefaults: true, HTTPModules: wide, WSModules: wide, ListOnly: true})
 		return l
 	}
+	l = append(l, Scenario{Name: "default-env/wide-modules", Env: none, NoDefaults: true, HTTPModules: wide, WSModules: wide})
 	for mask := 1; mask < 32; mask++ {
 		env := map[string]string{}
 		for i, v := range envVars {
@@ -705,7 +794,7 @@ func scenarios(c *vh.Ctx) []Scenario {
 			}
 		}
 		sc := Scenario{Name: fmt.Sprintf("env-mask-%02d", mask), Env: env}
-		switch c.Rng.Intn(4) {
+		switch c.Rng.Intn(6) {
 		case 0:
 			sc.Name += "/default-config"
 		case 1:
@@ -717,13 +806,26 @@ func scenarios(c *vh.Ctx) []Scenario {
 		case 3:
 			sc.Name += "/ws-expose-all"
 			sc.NoDefaults, sc.HTTPModules, sc.WSModules, sc.WSExposeAll = true, []string{"personal"}, []string{"net"}, true
+		case 4:
+			sc.Name += "/runtime-start/wide-modules"
+			sc.Env = rt(env)
+			sc.Runtime, sc.NoDefaults, sc.HTTPModules, sc.WSModules = true, true, wide, wide
+		case 5:
+			sc.Name += "/runtime-start/apis-null"
+			sc.Env = rt(env)
+			sc.Runtime, sc.RuntimeNil = true, true
 		}
 		l = append(l, sc)
+		// and the same environment with servers started at run time, registry comparison only
+		l = append(l, Scenario{Name: fmt.Sprintf("env-mask-%02d/runtime-start/list-only", mask), Env: rt(env), Runtime: true, NoDefaults: true, HTTPModules: wide, WSModules: wide, ListOnly: true})
 	}
-	l = append(l, Scenario{Name: "default-env/empty-whitelist", Env: map[string]string{}, NoDefaults: true})
-	l = append(l, Scenario{Name: "default-env/ws-expose-all", Env: map[string]string{}, NoDefaults: true, HTTPModules: []string{"personal"}, WSModules: []string{"net"}, WSExposeAll: true})
-	l = append(l, Scenario{Name: "clique/default-env/default-config", Env: map[string]string{}, Clique: true})
-	l = append(l, Scenario{Name: "clique/default-env/wide-modules", Env: map[string]string{}, Clique: true, NoDefaults: true, HTTPModules: wide, WSModules: wide})
+	l = append(l, Scenario{Name: "default-env/empty-whitelist", Env: none, NoDefaults: true})
+	l = append(l, Scenario{Name: "default-env/ws-expose-all", Env: none, NoDefaults: true, HTTPModules: []string{"personal"}, WSModules: []string{"net"}, WSExposeAll: true})
+	l = append(l, Scenario{Name: "clique/default-env/wide-modules", Env: none, Clique: true, NoDefaults: true, HTTPModules: wide, WSModules: wide})
+	l = append(l, Scenario{Name: "clique/NO_SIGN/wide-modules", Env: map[string]string{"NO_SIGN": "1"}, Clique: true, NoDefaults: true, HTTPModules: wide, WSModules: wide})
+	l = append(l, Scenario{Name: "NO_SIGN/all-opted-in/wide-modules", Env: map[string]string{"NO_SIGN": "1", envVars[1]: "1", envVars[2]: "1", envVars[3]: "1", envVars[4]: "1"}, NoDefaults: true, HTTPModules: wide, WSModules: wide})
+	l = append(l, Scenario{Name: "no-keys/wide-modules/list-only", Env: none, NoKeys: true, NoDefaults: true, HTTPModules: wide, WSModules: wide, ListOnly: true})
+	l = append(l, Scenario{Name: "runtime-start/apis-null", Env: rt(nil), Runtime: true, RuntimeNil: true})
 	return l
 }
 
@@ -735,7 +837,7 @@ func main() {
 	c := vh.Init("C18")
 	m := c.StartModel()
 	defer m.Close()
-	c.Res.Rule = "scenario = values of the five UNSAFE_* variables (unset / truthy / falsy spellings) x module whitelists (default, wide incl. personal+miner+testing, empty, ws-expose-all) x chain (aquahash, clique); per scenario a child process runs a real node; case = (scenario, transport in {inproc,ipc,http,ws}, method from the node's full API list, account variant unlocked|locked x right|wrong|no passphrase); distinct non-trivial = distinct (scenario, transport, method, variant, signed?)"
+	c.Res.Rule = "scenario = values of the five UNSAFE_* variables (unset / truthy / falsy spellings) x module whitelists (default, wide incl. personal+miner+testing, empty, ws-expose-all) x how HTTP/WS come up (configured at start-up | admin_startRPC/admin_startWS over IPC at run time, with explicit or null apis) x chain (aquahash, clique) x NO_SIGN / NoKeys; per scenario a child process runs a real node; case = (scenario, transport in {inproc,ipc,http,ws}, method from the node's full API list, account variant unlocked|locked x right|wrong|no passphrase); distinct non-trivial = distinct (scenario, transport, method, variant, signed?)"
 
 	var scs []Scenario
 	if c.Replay != "" {
@@ -765,7 +867,7 @@ func main() {
 		err error
 	}
 	results := make([]res, len(scs))
-	par := 4
+	par := 8
 	sem := make(chan struct{}, par)
 	done := make(chan int, len(scs))
 	for i := range scs {
@@ -790,7 +892,6 @@ func main() {
 			c.Sample(map[string]interface{}{"scenario": sc, "universe_methods": o.Universe, "served": map[string]int{"inproc": len(o.Transports["inproc"].Registry), "ipc": len(o.Transports["ipc"].Registry), "http": len(o.Transports["http"].Registry), "ws": len(o.Transports["ws"].Registry)}, "skipped": o.Transports["inproc"].Skipped})
 		}
 	}
-	c.Assume("GenApis.v lists the APIs of a node on the aquahash engine; on a clique chain the engine adds a `clique` namespace (read-only snapshot/proposal methods; the static call graph would have to be extended to cover it) which is excluded from the registry comparison")
 	c.Assume("subscriptions (aqua_subscribe/…) are listed and compared but not invoked; admin_shutdown/stopRPC/stopWS are not invoked (they stop the endpoints under test); the static call graph marks all of them non-signing")
 	c.Assume("the keystore counter counts ENTRIES into SignHash/SignHashAllowed/SignHashOK/SignTx/SignHashWithPassphrase/SignTxWithPassphrase; whether a signature came out is reported per call (result ok)")
 	c.Finish()
